@@ -16,7 +16,7 @@ RULE = ('states = quaternions of the alphabet (group elements, lattice non-unit 
 ASSUMPTIONS = ['integer lattice (entries in [-2,2]) non-unit quaternions make the non-unit laws exact in floating point',
                'tolerance 1e-12 absolute on unit operands, 1e-12 relative to the product of norms on non-unit operands',
                'scalar-last vs scalar-first objects are built from the same four numbers in the two orders; normalisation sums in a different order, hence 1e-15 on components and 1e-14 on derived matrices and products rather than bit equality (observed 1.1e-15 on menu entry 2)', 'scalar-last objects are multiplied with Hamilton-ordered right operands, as Quaternion.product documents']
-REQUIRED_CLASSES = ['triples', 'pairs:nonunit', 'inverse:unit', 'inverse:nonunit', 'order:S', 'object-history', 'ownership', 'derived-objects', 'small-batches', 'magnitudes', 'order-pairings']
+REQUIRED_CLASSES = ['triples', 'pairs:nonunit', 'inverse:unit', 'inverse:nonunit', 'order:S', 'order:same-raw-numbers', 'object-history', 'ownership', 'derived-objects', 'small-batches', 'magnitudes', 'order-pairings']
 TOL = 1e-12
 
 
@@ -199,6 +199,27 @@ def job_order(ctx, k):
             ctx.transitions += 2
         ctx.cls('order:S')
         ctx.seen(('order', i))
+    # the SAME raw numbers read in the two storage orders (two different quaternions with bit-identical stored elements), in both creation
+    # orders and interleaved: each object answers for ITS reading (nothing keyed by the stored bytes alone may be shared between them)
+    for i, raw in enumerate(S[3::11]):
+        raw = rq.qunit(raw)
+        qH, qS = raw, np.roll(raw, 1)              # what (w, x, y, z) the two readings stand for
+        for first in ('H', 'S'):
+            objs = {}
+            for o_ in ((first, 'S' if first == 'H' else 'H')):
+                objs[o_] = Quaternion(raw.copy(), order=o_)
+                for o2 in objs:                     # every object built so far is asked again after each construction
+                    Qo, qq = objs[o2], (qH if o2 == 'H' else qS)
+                    key = f'raw=S[{3 + 11 * i}] built first={first} asked={o2} k{k}'
+                    r = others[0]
+                    ctx.close(np.asarray(Qo.to_DCM()), rq.R(qq), 1e-14, 'same raw numbers, two storage orders: to_DCM answers for the object\'s own reading', key)
+                    ctx.close(np.asarray(Qo.mult_L()) @ r, rq.qmul(qq, r), 1e-14, 'same raw numbers, two storage orders: mult_L(q) r = q r', key)
+                    ctx.close(np.asarray(Qo.mult_R()) @ r, rq.qmul(r, qq), 1e-14, 'same raw numbers, two storage orders: mult_R(q) r = r q', key)
+                    ctx.close(np.asarray(Qo.product(r.copy())), rq.qmul(qq, r), 1e-14, 'same raw numbers, two storage orders: product', key)
+                    ctx.close([float(Qo.w), float(Qo.x), float(Qo.y), float(Qo.z)], qq, 1e-15, 'same raw numbers, two storage orders: w, x, y, z', key)
+                    ctx.close(np.asarray(Qo.rotate(np.array([1.0, 2.0, -3.0]))), rq.R(qq) @ np.array([1.0, 2.0, -3.0]), 1e-13, 'same raw numbers, two storage orders: rotate', key)
+                    ctx.transitions += 1
+    ctx.cls('order:same-raw-numbers')
     # objects derived from a scalar-last quaternion without going through the constructor keep their storage order
     import copy as _copy
     for i, q in enumerate(S[::9]):
